@@ -6240,11 +6240,22 @@ bool SoPlexBase<R>::setIntParam(const IntParam param, const int value, const boo
          break;
 
       case SYNCMODE_MANUAL:
+      {
+         const bool fresh = (_rationalLP == nullptr);
          _ensureRationalLP();
          assert(_realLP != nullptr);
          _rationalLP->changeSense(_realLP->spxSense() == SPxLPBase<R>::MINIMIZE ? SPxLPRational::MINIMIZE :
                                   SPxLPRational::MAXIMIZE);
+
+         // a fresh rational LP is empty: give it the objective offset and matching range-type arrays
+         if(fresh)
+         {
+            _rationalLP->changeObjOffset(realParam(SoPlexBase<R>::OBJ_OFFSET));
+            _recomputeRangeTypesRational();
+         }
+
          break;
+      }
 
       default:
          return false;
